@@ -681,6 +681,8 @@ enum Shape {
     LiteralThenGlob,
     /// no wildcard at all
     LiteralOnly,
+    /// `lit**/rest`: a `**` right after a literal prefix
+    LiteralThenDoubleStar,
 }
 
 fn gen_tokens(t: &mut Tape, shape: Shape) -> Vec<Tok> {
@@ -704,6 +706,13 @@ fn gen_tokens(t: &mut Tape, shape: Shape) -> Vec<Tok> {
             for _ in 0..t.range(1, 5) {
                 toks.push(lit(t));
             }
+        }
+        Shape::LiteralThenDoubleStar => {
+            for _ in 0..t.range(1, 3) {
+                toks.push(Tok::Lit(*t.pick(b"abcxyAB._-".as_slice())));
+            }
+            toks.push(Tok::Star(2));
+            toks.push(Tok::Lit(b'/'));
         }
         Shape::General => {}
     }
@@ -1120,7 +1129,7 @@ type Deferred = Option<(&'static str, String)>;
 
 fn report_deferred(c: &mut Case, d: Deferred) {
     if let Some((sig, msg)) = d {
-        c.fail_sig(sig, msg);
+        c.fail_sig(&pin(sig), msg);
     }
 }
 
@@ -1217,6 +1226,18 @@ fn probe(arg: &str) {
     }
 }
 
+/// Triage helper for pinning known findings: `VP_PIN=<signature>` makes failures of that class carry an unknown signature
+/// (`<signature>#pin`) so that the runner shrinks them and writes a case file even though the class is listed as known.
+fn pin(sig: &str) -> String {
+    match std::env::var("VP_PIN") {
+        Ok(p) if p == sig => format!("{sig}#pin"),
+        _ => sig.to_string(),
+    }
+}
+fn pinning() -> bool {
+    std::env::var_os("VP_PIN").is_some()
+}
+
 fn main() {
     if let Ok(arg) = std::env::var("C36_PROBE") {
         probe(&arg);
@@ -1229,6 +1250,8 @@ fn main() {
         Git::version()
     ));
     ck.assume("git runs wildmatch only on the pattern part starting at the first glob-special character (the literal prefix is compared separately), so git-confirmed pairs have patterns starting with one of * ? [ \\; other pairs rely on the validated model");
+    ck.assume("the reference for Pattern::matches() is git's use of wildmatch in dir.c/pathspec.c (literal prefix compared separately, wildmatch on the rest); this differs from wildmatch on the whole pattern only for 'lit**...' patterns (sub-check pattern-matches generates them with a shape of their own)");
+    ck.assume("a disagreement that is exactly explained by a recorded deviation class (known_findings.json) is confirmed with real git only for a deterministic 1/16 sample; every unexplained disagreement is put to real git when expressible");
 
     // gix_glob::wildmatch vs the model, 4 modes per pair
     ck.sub("wildmatch", SubCfg::new(150_000, 5_000_000).max_len(400), |t, c| {
@@ -1262,6 +1285,7 @@ fn main() {
             Shape::LiteralThenGlob,
             Shape::LiteralThenGlob,
             Shape::LiteralOnly,
+            Shape::LiteralThenDoubleStar,
         ]);
         let toks = gen_tokens(t, shape);
         let mut raw = Vec::new();
@@ -1315,9 +1339,49 @@ fn main() {
             p.first_wildcard_pos,
             show(&p.text)
         );
+        // The reference for Pattern::matches() is what git does with such a pattern in dir.c/pathspec.c
+        // (match_basename(), match_pathname(), git_fnmatch()): the literal prefix up to the first glob character is
+        // compared on its own and wildmatch sees only the rest of pattern and text. That differs from wildmatch on the
+        // whole pattern exactly when the rest starts with `**` after a non-slash literal (`lit**/x`): for git the `**`
+        // is then at the start of the pattern and may match across directories.
+        let n = nowildcard_len(&p.text);
+        let dstar_after_literal = n > 0 && n < p.text.len() && p.text[n - 1] != b'/' && p.text[n..].starts_with(b"**");
+        c.label_if(dstar_after_literal, "doublestar-after-literal-prefix");
         let mut deferred = None;
         for flags in 0..4u32 {
             let got = p.matches(text.as_bstr(), gix_mode(flags));
+            if dstar_after_literal {
+                let fold = flags & CASEFOLD != 0;
+                let prefix_ok = text.len() >= n && eq_fold(&p.text[..n], &text[..n], fold);
+                let Some(rest_matches) = (if prefix_ok {
+                    model::wildmatch(&p.text[n..], &text[n..], flags, Quirks::default())
+                } else {
+                    Some(false)
+                }) else {
+                    c.discard();
+                    return;
+                };
+                if got != rest_matches {
+                    let whole = model::wildmatch(&p.text, &text, flags, Quirks::default());
+                    let msg = format!(
+                        "Pattern::matches(): gitoxide says {got}; git compares the literal prefix `{}` and runs wildmatch on the rest `{}`, which says {rest_matches} for text `{}` mode {}",
+                        show(&p.text[..n]),
+                        show(&p.text[n..]),
+                        show(&text),
+                        flags_name(flags)
+                    );
+                    if whole == Some(got) {
+                        // gitoxide = wildmatch on the whole pattern: the recorded class
+                        deferred.get_or_insert(("doublestar-after-literal-prefix", msg));
+                    } else {
+                        // something else is wrong as well; let the ordinary vote name it
+                        if !vote(c, &mut deferred, "Pattern::matches()", &p.text, &text, flags, got) {
+                            return;
+                        }
+                    }
+                }
+                continue;
+            }
             if !vote(c, &mut deferred, "Pattern::matches()", &p.text, &text, flags, got) {
                 return;
             }
@@ -1398,6 +1462,9 @@ fn main() {
             report_deferred(c, deferred);
             c.label_if(matched > 0, "git-matched-some");
             c.label_if(informative == 0, "no-informative-pair");
+            c.label_if(informative >= 20, "informative-pairs>=20");
+            c.label_if(informative >= 60, "informative-pairs>=60");
+            c.label_if(matched >= 10, "git-matches>=10");
             c.nontrivial(nfeat_max >= 2 && informative >= 8 && matched > 0);
             c.sample_with(|| {
                 format!(
